@@ -330,6 +330,8 @@ def gen_callbacks(loader, check, replay_on=True):
                 if not ok:
                     continue
                 check.ob("sub_routine#caller-receives-a-value-of-the-declared-return-type", inst, pc, ir.vt(tmp) == tuple(ret))
+                check.ob("sub_routine#the-routine's-declared-types-are-not-modified-by-the-call", inst, pc,
+                         ir.vt_of(p.state["sr"].fields["value_type"]) == tuple(ret) and [ir.vt(q) for q in p.state["sr"].fields["ops"]] == [(False, 16), (True, 64)])
                 args = h.fields["args"]
                 check.ob("sub_routine#one-argument-per-parameter-in-order", inst, pc, len(args) == 2)
                 for k, (pt, a0) in enumerate(zip([(False, 16), (True, 64)], p.state["a"])):
@@ -338,6 +340,34 @@ def gen_callbacks(loader, check, replay_on=True):
                     check.ob("sub_routine#argument-has-the-parameter-type", f"{inst} position={k}", pc, good)
                     if good:
                         check.ob("sub_routine#argument-denotes-conv_C11(argument -> parameter type)", f"{inst} position={k}", pc, ir.den(r) == c_conv_den(a0, pt))
+    # consumers of a call result must not retype the routine: the placeholder's type object is the routine's return type object
+    for ret in [(False, 32), (False, 64), (True, 8)]:
+        for op in ("-", "~"):
+            inst = f"{op}fn(x) with fn returning {tname(ret)}"
+            check.instances_declared += 1
+
+            def setup_u(it, ret=ret):
+                t = tkit.mk_transformer(it)
+                pars = [it.call(irkit.C(loader, "Parameter"), ["p0", conc_vt(loader, (True, 32))], {})]
+                sr = it.call(irkit.C(loader, "SubRoutine"), ["fn", conc_vt(loader, ret), pars, "return NOP();"], {})
+                t.fields["sub_routines"]["fn"] = sr
+                a0 = irkit.mk_operand(it, "Variable", (True, 32), "a0")
+                return {"t": t, "sr": sr, "a0": a0}
+
+            def run_u(it, st, op=op):
+                tmp = it.call(tkit.method(it, st["t"], "sub_routine"), [["fn", st["a0"]]], {})
+                return it.call(tkit.method(it, st["t"], "unary_expr"), [[Token("UNARY_OP", op), tmp]], {})
+            ex = explore(loader, setup_u, run_u)
+            check.absorb(ex, f"sub_routine {inst}")
+            if ex.paths:
+                check.instances_generated += 1
+            for p in ex.paths:
+                if p.outcome != "return":
+                    check.ob("sub_routine#result-consumer-total", inst, p.ctx.pc, False, detail=repr(p.value))
+                    continue
+                check.ob("sub_routine#a-consumer-of-the-result-does-not-retype-the-routine", inst, p.ctx.pc,
+                         ir.vt_of(p.state["sr"].fields["value_type"]) == tuple(ret), detail=f"return type is now {ir.vt_of(p.state['sr'].fields['value_type'])}",
+                         replay=("c08.retype", lambda mdl, ret=ret, op=op: {"ret": list(ret), "op": op}) if replay_on else None)
     for lab, items, exc in (("argument count mismatch", lambda it: ["fn", irkit.mk_operand(it, "Variable", (True, 32), "a")], ValueError),
                             ("unknown routine", lambda it: ["nofn", irkit.mk_operand(it, "Variable", (True, 32), "a")], NotImplementedError)):
         check.instances_declared += 1
@@ -622,6 +652,20 @@ def _api_local_collision():
 def replay_api_local_collision(a):
     del _API[:]
     return _api_local_collision()
+
+
+@replay.register("c08.retype")
+def replay_retype(a):
+    import io
+    import contextlib
+    c = _fresh_compiler()
+    s_, w = a["ret"]
+    ct = f"{'' if s_ else 'u'}int{w}_t"
+    with contextlib.redirect_stdout(io.StringIO()):
+        c.add_sub_routine("retype_fn", ct, ["int32_t a"], "{ return a; }")
+        c.compile_c_stmt("{ RdV = %sretype_fn(RsV); }" % a["op"])
+    vt = c.sub_routines["retype_fn"].value_type
+    return (vt.signed, vt.bit_width) != (bool(s_), w), f"after {{ RdV = {a['op']}retype_fn(RsV); }} the routine declared {ct} has return type {vt}"
 
 
 @replay.register("c08.tmp_collision")
